@@ -51,6 +51,17 @@ CHECKS = {
         'the XML sub-language without DTD, PI, comments.',
    tech='Coq proof by induction over strings and rose trees (closed under the global context) + correspondence',
    ref='5/C02'),
+ 'C03': dict(
+   text='Proof (Coq): for every document tree (embedded objects at any depth, any pictures, thumbnail, extras, settings present or '
+        'not) the model of __zipwrite yields: mimetype as first entry, stored, no extra field, exactly the media type; the four required '
+        'members; manifest file rows = the members other than mimetype and the manifest, in order; the root row and every object-folder '
+        'row carry the right media type; every picture is present byte-identical under owner-folder + returned name with its media type. '
+        'No-duplicate member names needs distinct names in the input (an explicit picture name equal to a reserved member name is a '
+        'recorded finding). Tied by correspondence of member order, STORED flags, bytes and manifest rows, and by an oracle reading the '
+        'raw first local header, the central directory and the manifest independently.',
+   note='Axioms: none. XML part payloads are symbolic here (their content is C01/C02/C10); zipfile\'s byte layout is trusted.',
+   tech='Coq proof over a model of the package writer (induction on the object tree) + correspondence',
+   ref='5/C03'),
  'C07': dict(
    text='Proof (Coq): every raising DOM/Element operation of the heap model returns the heap it was given (tree, link fields, owner '
         'marks, element index, style dictionary) - for any consistent heap and any operation; a raising constructor call (any failing '
@@ -84,6 +95,16 @@ CHECKS = {
    note='Axioms: none. Decimal printing through Coq\'s DecimalN (N.to_uint), injectivity from its of_to lemma.',
    tech='Coq invariant proof by induction over operation histories + regenerated nsdict + correspondence',
    ref='5/C14'),
+ 'C16': dict(
+   text='Proof (Coq): addObject returns "./x" and the object is stored in folder "x/" (default, explicit, slashed names, nesting); every '
+        'embedded object of the tree, at any depth, has content.xml and styles.xml in the folder its reference names, declared with its '
+        'media type, its pictures below that folder; load() turns every object folder of a manifest (any number, any order, nested) into '
+        'an object with that very folder, so load+save writes it back under the same path and media type, and every other member '
+        'below object folders travels byte-identically. Tied by correspondence (addObject results, classification of manifest entries, '
+        'archive) and an oracle resolving every returned reference / draw:object href against the archive.',
+   note='Axioms: none. Objects attached child-first with default names get colliding folders (recorded finding if it reproduces).',
+   tech='Coq proof over the package writer/reader model + correspondence',
+   ref='5/C16'),
  'C17': dict(
    text='Proof (Coq): for every string and every pre-existing child list, extractText(addTextToElement(e,s)) = before ++ s; '
         'emitted text nodes hold no TAB/LF/double blank and are never adjacent; elements allowing text,s,tab,line-break accept '
